@@ -1,7 +1,6 @@
 //! C12 — text parsing is total; a token is a card iff it starts with rank + suit symbols.
 
 use super::c10::{rank_num, suit_num};
-use super::common::*;
 use crate::engine::{self, guard, hash_str, hex, pt, PResult, Run, Tier};
 use crate::model::{card, text};
 use ckc_rs::cards::binary_card::{BinaryCard, BC64};
@@ -14,8 +13,6 @@ use ckc_rs::cards::two::Two;
 use ckc_rs::{CKCNumber, CardRank, CardSuit, HandError, PokerCard};
 use proptest::prelude::*;
 use serde_json::{json, Value};
-use std::cell::{Cell, RefCell};
-use std::collections::BTreeMap;
 
 /// The hand parsers demand `&'static str` although they return owned arrays; the generated
 /// string's lifetime is extended for the duration of the call only.
@@ -169,15 +166,6 @@ pub fn hand_text_strategy(k: std::ops::RangeInclusive<usize>) -> impl Strategy<V
     })
 }
 
-struct Stats {
-    cases: u64,
-    nontrivial: u64,
-    distinct: engine::Distinct,
-    classes: BTreeMap<String, u64>,
-    frozen: bool,
-    samples: Vec<String>,
-}
-
 pub fn run(run: &mut Run) -> PResult {
     run.rule = "every Unicode scalar value through the rank and suit symbol tables; tokens c1 c2 tail for every pair (c1, c2) over an alphabet of all symbols, look-alikes, separators, NUL and 1-4 byte characters x 8 tails, plus empty and one-character tokens; 52 cards x 4 renderings for the round trip; proptest hand texts of 0..=9 tokens and arbitrary strings through from_index, get_rank_and_suit, five_from_index, TryFrom<&str> for Two..Seven and BinaryCard::from_index; thorough adds a libFuzzer campaign. Oracle: symbol tables + first-two-characters rule + tokenisation on the common separators. Non-trivial = tokens / texts that are not one of the canonical spellings of a card (tails, junk, multi-byte, too few or exactly N tokens with junk); distinct by 64-bit hash of the text".into();
     run.assume("texts with more tokens than slots: only totality is asserted (the statement speaks of fewer and of exactly that many)");
@@ -245,46 +233,25 @@ pub fn run(run: &mut Run) -> PResult {
         run.generator("render -> parse round trip", "exhaustive", Some(208), n, n, "52 cards x {glyph, letter} x {as is, lowercase}");
     }
     // R: hand texts
-    let st = RefCell::new(Stats { cases: 0, nontrivial: 0, distinct: engine::Distinct::new(), classes: BTreeMap::new(), frozen: false, samples: Vec::new() });
-    let note = |s: &str, label: &str| {
-        let mut st = st.borrow_mut();
-        if st.frozen {
-            return;
-        }
-        st.cases += 1;
+    let label_nt = |s: &str| -> bool {
         let toks = text::tokens(s);
-        let canonical = toks.iter().all(|t| t.chars().count() == 2 && text::card_of_token(t) != 0) && !toks.is_empty();
-        if st.distinct.insert(hash_str(s)) && !canonical {
-            st.nontrivial += 1;
-        }
-        *st.classes.entry(label.to_string()).or_insert(0) += 1;
-        if st.samples.len() < 3 && st.cases % 1001 == 7 {
-            st.samples.push(s.to_string());
-        }
+        !(toks.iter().all(|t| t.chars().count() == 2 && text::card_of_token(t) != 0) && !toks.is_empty())
     };
     {
-        let cases = if thorough { 3_000_000 } else { 300_000 };
-        let res = pt::run(run.seed, 0xC12, cases, &hand_text_strategy(0..=9), |s| match hand_clause(&s) {
+        let st = engine::RStats::new();
+        let cases = if thorough { 16_000_000 } else { 1_600_000 };
+        let make = || hand_text_strategy(0..=9);
+        let res = pt::run_sharded(run.seed, 0xC12, cases, &make, &|s: String| match hand_clause(&s) {
             Ok(label) => {
-                note(&s, &label);
+                st.note(hash_str(&s), label_nt(&s), Some(&label), || json!({"text": s}));
                 Ok(())
             }
             Err(m) => {
-                st.borrow_mut().frozen = true;
+                st.freeze();
                 Err(m)
             }
         });
-        {
-            let mut sb = st.borrow_mut();
-            run.generator("proptest hand texts (0..=9 tokens)", "proptest", None, sb.cases, sb.nontrivial, "tokens: 12/23 canonical spellings, card + tail, lone rank, suit-then-rank, junk; joined by 1-2 common separators, optional padding");
-            for (k, v) in sb.classes.iter() {
-                run.class(&format!("hand texts: {}", k), *v);
-            }
-            for s in sb.samples.drain(..) {
-                run.sample(json!({"text": s}));
-            }
-            *sb = Stats { cases: 0, nontrivial: 0, distinct: engine::Distinct::new(), classes: BTreeMap::new(), frozen: false, samples: Vec::new() };
-        }
+        st.flush(run, "proptest hand texts (0..=9 tokens)", "proptest (8 shards)", None, "tokens: 12/23 canonical spellings, card + tail, lone rank, suit-then-rank, junk; joined by 1-2 common separators, optional padding");
         if let Err(f) = res {
             let m = hand_clause(&f.value).err().unwrap_or_default();
             return run.violation("C12.hand", &f.value, json!({"text": f.value}), &m);
@@ -292,29 +259,28 @@ pub fn run(run: &mut Run) -> PResult {
     }
     // R: arbitrary strings (totality, and the oracle wherever it applies)
     {
-        let cases = if thorough { 1_000_000 } else { 100_000 };
-        let sg = sigma();
-        let sg2 = sg.clone();
-        let strat = prop_oneof![
-            2 => ".*",
-            2 => "[AKQJT0-9akqjt]{0,3}[SHDCshdc♠♥♦♣♤♡♢♧]{0,3}[ \\t\\n]{0,2}.{0,6}",
-            3 => proptest::collection::vec(0..sg.len(), 0..24).prop_map(move |v| v.iter().map(|i| sg2[*i]).collect::<String>()),
-        ];
-        let res = pt::run(run.seed, 0xC12_A, cases, &strat, |s| match hand_clause(&s) {
+        let st = engine::RStats::new();
+        let cases = if thorough { 8_000_000 } else { 800_000 };
+        let make = || {
+            let sg = sigma();
+            let sg2 = sg.clone();
+            prop_oneof![
+                2 => ".*",
+                2 => "[AKQJT0-9akqjt]{0,3}[SHDCshdc♠♥♦♣♤♡♢♧]{0,3}[ \\t\\n]{0,2}.{0,6}",
+                3 => proptest::collection::vec(0..sg.len(), 0..24).prop_map(move |v| v.iter().map(|i| sg2[*i]).collect::<String>()),
+            ]
+        };
+        let res = pt::run_sharded(run.seed, 0xC12_A, cases, &make, &|s: String| match hand_clause(&s) {
             Ok(label) => {
-                note(&s, &label);
+                st.note(hash_str(&s), label_nt(&s), Some(&label), || json!({"text": s}));
                 Ok(())
             }
             Err(m) => {
-                st.borrow_mut().frozen = true;
+                st.freeze();
                 Err(m)
             }
         });
-        let sb = st.borrow();
-        run.generator("proptest arbitrary strings", "proptest", None, sb.cases, sb.nontrivial, "any string, a symbol-rich regex, strings over the character alphabet (separators and exotic whitespace included)");
-        for (k, v) in sb.classes.iter() {
-            run.class(&format!("arbitrary strings: {}", k), *v);
-        }
+        st.flush(run, "proptest arbitrary strings", "proptest (8 shards)", None, "any string, a symbol-rich regex, strings over the character alphabet (separators and exotic whitespace included)");
         if let Err(f) = res {
             let m = hand_clause(&f.value).err().unwrap_or_default();
             return run.violation("C12.hand", &f.value, json!({"text": f.value}), &m);
@@ -356,8 +322,3 @@ pub fn check_bytes(data: &[u8]) -> Result<(), String> {
     hand_clause(&s).map(|_| ()).map_err(|m| format!("C12.hand: {}", m))
 }
 
-#[allow(dead_code)]
-fn _unused() {
-    let _ = arr::<2>;
-    let _ = Cell::new(0);
-}
